@@ -126,7 +126,7 @@ func drawC11(rt *rapid.T) interface{} {
 		return sc
 	}
 	sc.Ops = drawOps(rt, rapid.IntRange(1, hx.Pick(40, 120)).Draw(rt, "nops"), bufOps)
-	if rapid.IntRange(0, 39).Draw(rt, "large") == 0 {
+	if hx.Rare(rt, hx.Pick(400, 100), "large") {
 		// large-buffer class: capacity of a megabyte and more, appends of a quarter to a whole of it on a non-empty buffer
 		sizes := []int{1 << 18, 300000, 1 << 19, 1<<20 - 1, 1 << 20, 1<<20 + 1, 3 << 19}
 		var ops []bOp
@@ -463,7 +463,7 @@ func TestC11(t *testing.T) {
 		Run:         runC11,
 		Real:        []string{"tex.Buffer (unmodified)", "bytes.Buffer of go1.26.8 (the reference)"},
 		Stubs:       []string{"io.Reader handed to ReadFrom (fragmenting, (0,nil) reads, data with EOF, error after k bytes, negative count)", "io.Writer handed to WriteTo (short write, error after k bytes, over-long count)"},
-		Rule: "scenario = initial buffer (zero, NewBuffer, NewBufferString, NewSizedBuffer) x up to 40 operations over Write/WriteString/WriteByte/WriteRune (incl. negative, surrogate and out-of-range runes)/Read/ReadByte/ReadRune/UnreadByte/UnreadRune/Next/Truncate/Reset/Grow (incl. invalid and impossible sizes)/ReadFrom(faulty reader)/WriteTo(faulty writer)/Len/Bytes/String/ReWrite (1 in 40: a large-buffer prelude, capacity of 1-2 MiB and appends of 256 KiB-1.5 MiB); " +
+		Rule: "scenario = initial buffer (zero, NewBuffer, NewBufferString, NewSizedBuffer) x up to 40 operations over Write/WriteString/WriteByte/WriteRune (incl. negative, surrogate and out-of-range runes)/Read/ReadByte/ReadRune/UnreadByte/UnreadRune/Next/Truncate/Reset/Grow (incl. invalid and impossible sizes)/ReadFrom(faulty reader)/WriteTo(faulty writer)/Len/Bytes/String/ReWrite (about 1 in 400, thorough 1 in 100: a large-buffer prelude, capacity of 1-2 MiB and appends of 256 KiB-1.5 MiB); " +
 			"both buffers run the same operation, results + errors + recovered panics + Len + Bytes compared after every step; non-trivial = >=3 ops; distinct = distinct hash of the step log",
 		Probes: []string{"panic-in-both", "rewrite", "fragment", "zero-read", "eof-with-data", "read-error", "read-error-with-data", "short-write", "write-error", "unread-after-grow-skipped", "independent-buffers-concurrently", "too-large-panic-in-both", "large-append"},
 		Assumptions: []string{"reference = bytes.Buffer of the toolchain building the check (go1.26.8)", "UnreadByte/UnreadRune directly after Grow and Cap() are not compared (the property's exclusion)",
